@@ -37,16 +37,25 @@ def cases(draw, tier):
     if case['rule'] in ('wigm', 'meek', 'warren') and d.p(15):
         case['options']['display'] = d.choice([0, 0, 1, 2])     # a coarse display must not coarsen the count (comparison tolerance, quota)
     if len(el) >= 3 and d.p(75):
-        size = d.int(2, len(el) - 1)
+        s = case['nseats']
+        # the skewed template needs a coalition of three or more entitled to three or more seats; drawn on purpose, since
+        # uniform (size, k) reaches it in under 1 % of cases
+        skew = s >= 3 and len(el) >= 4 and d.p(30)
+        size = d.int(3 if skew else 2, len(el) - 1)
         S = d.sample(el, size)
         rest = [c for c in range(1, nc + 1) if c not in S]
         n0 = model.nballots(case)
-        s = case['nseats']
-        k = d.int(1, min(s, size))
+        k = d.int(3, min(s, size)) if skew else d.int(1, min(s, size))
         # coalition size just above / below k quotas of the final total (solve t = k*(n0+t)/(s+1) + eps)
         target = Fraction(k * n0, s + 1 - k) if s + 1 - k > 0 else Fraction(n0)
-        t = max(1, int(target) + d.int(-1, 2))
-        if d.p(20):
+        base = int(target)
+        if s + 1 - k > 0 and d.p(50):
+            # rules whose quota is a whole number (votes // (seats+1) + 1: mpls, cfer, scotland, integer arithmetic) put the
+            # boundary up to k*(s+1)/(s+1-k) ballots higher than the fractional solution
+            while not base > k * ((n0 + base) // (s + 1) + 1):
+                base += 1
+        t = max(1, base + d.int(-1, 2))
+        if not skew and d.p(20):
             # tied tail: every member leads one line of the same weight (rotations), so the coalition's members tie exactly -
             # whichever way the tie is broken (or batched), the coalition keeps its entitlement
             m = max(1, -(-t // size))
@@ -55,6 +64,27 @@ def cases(draw, tier):
                 r = order[j:] + order[:j] + d.sample(rest, d.int(0, len(rest)))
                 case['ballots'].append([m, [[c] for c in r]])
             case['tied_tail'] = True
+        elif skew:
+            # skewed coalition: two strong members share almost all first preferences (both over the quota at once, two
+            # surpluses pending together) and the other members lead a handful of ballots each - they survive the early
+            # exclusions only if BOTH pending surpluses are credited to them when sure losers are batched
+            order = d.perm(S)
+            strong, weak = order[:2], order[2:]
+            left = t
+            for w in weak:
+                m = d.int(1, 4)
+                if left - m < 2:
+                    break
+                left -= m
+                r = [w] + d.perm([c for c in S if c != w]) + d.sample(rest, d.int(0, len(rest)))
+                case['ballots'].append([m, [[c] for c in r]])
+            a = left // 2 + d.int(-2, 2) if left >= 8 else left // 2
+            for lead, m in ((strong[0], a), (strong[1], left - a)):
+                if m > 0:
+                    tail = d.perm(weak) + [c for c in strong if c != lead] if d.p(60) else d.perm([c for c in S if c != lead])
+                    r = [lead] + tail + d.sample(rest, d.int(0, len(rest)))
+                    case['ballots'].append([m, [[c] for c in r]])
+            case['skewed'] = True
         else:
             lines = d.int(1, 3)
             for j in range(lines):
@@ -129,6 +159,8 @@ def check(case):
     res.tag('rule:' + rule)
     if case.get('tied_tail'):
         res.tag('coalition-members-tied')
+    if case.get('skewed'):
+        res.tag('coalition-two-strong-rest-weak')
     if vac:
         res.tag('vacuous-integer')
     if near:
